@@ -90,9 +90,18 @@ package majority
 //@             && (forall k int :: 0 <= k && k < len(worseThanCurrent) ==> result.worseThanCurrent[k] == old(worseThanCurrent[k]))
 
 
+// the configured draw policy, as an (abstract) function of what it is asked to resolve
+//@ spec resolved(r DrawResolver, cur real, nw real, same []model.AlternativeResult, worse [][]model.AlternativeResult, current model.AlternativeWithCriteria, another model.AlternativeWithCriteria) *DrawResolution
+//@ ifacemethod DrawResolver.Resolve
+//@   ensures result == resolved(self, currentEval, newEval, sameBuffer, worseThanCurrent, current, another) && result != nil
+
 //@ func (*Majority).takeBetter
 //@   property C11 C01 C09
 //@   fnparam generator ensures 0.0 <= result && result < 1.0
+//@   ensures [equal_scores_are_decided_by_the_configured_policy] abs(s1 - s2) <= 0.000001 ==>
+//@             result0 == resolved(resolver, s1, s2, sameBuffer, worseThanCurrent, current, another).worseThanCurrent
+//@             && result1 == resolved(resolver, s1, s2, sameBuffer, worseThanCurrent, current, another).sameBuffer
+//@             && result2 == resolved(resolver, s1, s2, sameBuffer, worseThanCurrent, current, another).current
 //@   ensures [winner_score] result3 == ((abs(s1 - s2) <= 0.000001 || s2 < s1) ? s1 : s2)
 //@   ensures [clear_win_of_current] !(abs(s1 - s2) <= 0.000001) && s2 < s1 ==> result2 == current && result1 == sameBuffer
 //@             && len(result0) == len(worseThanCurrent) + 1 && len(result0[len(worseThanCurrent)]) == 1
